@@ -14,6 +14,7 @@ L5 (parse side): `fromCst` for the container fragment — a transliteration, bug
                                  `_collect_comment_trivia` of `trivia.py`)
   * `expressions/with_statement.py` `WithStatement.from_cst`, `expressions/assertion.py` `Assertion.from_cst`
   * `expressions/select.py`      `Select.from_cst`
+  * `expressions/function/definition.py` `FunctionDefinition.from_cst` (identifier argument, `_collect_colon_trivia`)
                                  (with `split_inline_comments`, `append_gap_trivia`)
 
 `Expr` has one constructor per Python class with the fields the fragment uses (`Binding` is an
@@ -65,6 +66,10 @@ inductive Expr where
   /-- `Select(expression, attribute, default, attr_gap, attr_before, default_gap, default_before)` -/
   | selOr (expr : Expr) (attrs : List Text) (attrGap : Text) (attrBefore : List Trivia) (dflt : Expr)
       (dfltGap : Text) (dfltBefore : List Trivia) (before after : List Trivia)
+  /-- `FunctionDefinition(argument_set=Identifier(name), before_colon_comments, before_colon_gap,
+      breaks_after_semicolon, output)` — `argument_set_is_multiline = False`, no named attribute set, no
+      comment after the colon -/
+  | lam (name : Text) (bcc : List Trivia) (bcGap : Text) (breaks : Nat) (body : Expr) (before after : List Trivia)
 
 /-- `NixSourceCode(expressions, trailing)` -/
 structure Src where
@@ -72,6 +77,7 @@ structure Src where
   trailing : List Trivia
 
 def Expr.before : Expr → List Trivia
+  | .lam _ _ _ _ _ b _ => b
   | .leaf _ _ b _ => b
   | .list _ _ _ b _ => b
   | .set _ _ _ _ b _ => b
@@ -84,6 +90,7 @@ def Expr.before : Expr → List Trivia
   | .selOr _ _ _ _ _ _ _ b _ => b
 
 def Expr.after : Expr → List Trivia
+  | .lam _ _ _ _ _ _ a => a
   | .leaf _ _ _ a => a
   | .list _ _ _ _ a => a
   | .set _ _ _ _ _ a => a
@@ -96,6 +103,7 @@ def Expr.after : Expr → List Trivia
   | .selOr _ _ _ _ _ _ _ _ a => a
 
 def Expr.setBefore : Expr → List Trivia → Expr
+  | .lam n c g k bd _ a, b => .lam n c g k bd b a
   | .leaf k t _ a, b => .leaf k t b a
   | .list v m i _ a, b => .list v m i b a
   | .set v m r i _ a, b => .set v m r i b a
@@ -108,6 +116,7 @@ def Expr.setBefore : Expr → List Trivia → Expr
   | .selOr e ats g ab d dg db _ a, b => .selOr e ats g ab d dg db b a
 
 def Expr.setAfter : Expr → List Trivia → Expr
+  | .lam n c g k bd b _, a => .lam n c g k bd b a
   | .leaf k t b _, a => .leaf k t b a
   | .list v m i b _, a => .list v m i b a
   | .set v m r i b _, a => .set v m r i b a
@@ -343,6 +352,15 @@ def asrtFromCst (cond body : Expr) (c1 : GC) (g1 : Text) (c2 : GC) (g2 : Text) (
   let body := if sp.1.isEmpty then body else body.setBefore (sp.1 ++ body.before)
   .asrt cond body aac bsc [] (sp.2.map Trivia.comment)
 
+/-- `FunctionDefinition.from_cst(node)` for `name c1 g1 : g2 body`, given the parsed body:
+    `_collect_colon_trivia` counts the line breaks between the colon and the body; the first one is
+    `breaks_after_semicolon`, every further one a blank-line marker in front of the body -/
+def lamFromCst (name : Text) (c1 : GC) (g1 g2 : Text) (body : Expr) : Expr :=
+  let n := g2.count '\n'
+  let trivia : List Trivia := List.replicate (n - 1) .emptyLine
+  let body := if trivia.isEmpty then body else body.setBefore (trivia ++ body.before)
+  .lam name (collectTrivia c1 g1) g1 (if n > 0 then 1 else 0) body [] []
+
 mutual
 /-- `tree_sitter_node_to_expression(node)` on the fragment -/
 def Cst.parse : Cst → Except Err Expr
@@ -402,6 +420,10 @@ def Cst.parse : Cst → Except Err Expr
       match d.parse with
       | .error err => .error err
       | .ok de => .ok (.selOr ee attrs g1 (collectTrivia c1 g1) de g2 (collectTrivia c2 g2) [] [])
+  | .lam n c1 g1 _ g2 b =>
+    match b.parse with
+    | .error err => .error err
+    | .ok be => .ok (lamFromCst n c1 g1 g2 be)
 /-- the loop of `parse_delimited_sequence` -/
 def Items.parseSeq : Items → Mode → SeqSt → Except Err SeqSt
   | .nil, _, st => .ok st
